@@ -218,3 +218,60 @@ Proof.
       apply Z.eqb_eq in E1, E2. subst. exfalso. cbn in Ep. rewrite !Z.eqb_refl in Ep. discriminate. }
     rewrite E. exact IH.
 Qed.
+
+(* ---------- the by-delegator unbonding query: the by-denom answers of the whitelisted assets ---------- *)
+Definition ans_denom (a : UnbAnswer) : Z := snd a.
+Lemma answers_denom ct v dn l : Forall (fun a => ans_denom a = dn) (answers_of ct v dn l).
+Proof.
+  unfold answers_of. apply Forall_forall. intros a Hin. apply in_map_iff in Hin. destruct Hin as (u & <- & Hu).
+  apply filter_In in Hu. destruct Hu as [_ Hm]. apply andb_prop in Hm. destruct Hm as [_ E]. apply Z.eqb_eq in E. exact E.
+Qed.
+Lemma by_denom_answers_denom s dn del : Forall (fun a => ans_denom a = dn) (q_unbondings_by_denom s dn del).
+Proof.
+  unfold q_unbondings_by_denom. apply Forall_forall. intros a Hin. apply in_flat_map in Hin. destruct Hin as ([k u] & _ & Ha).
+  cbn [fst] in Ha. destruct k as [|v1 [|ct1 [|dn1 [|del1 [|]]]]]; try destruct Ha.
+  destruct ((dn1 =? dn) && (del1 =? del)); [|destruct Ha].
+  pose proof (answers_denom ct1 v1 dn (bucket_of s ct1 del)) as H. rewrite Forall_forall in H. exact (H a Ha).
+Qed.
+
+(* the answers of the by-delegator query that carry denom dn are exactly the by-denom answers, once per
+   whitelisted asset record of that denom (reachable states have at most one) *)
+Theorem unbondings_by_delegator_exact s del dn :
+  filter (fun a => ans_denom a =? dn) (q_unbondings_by_delegator s del) =
+  flat_map (fun ka => if a_denom (snd ka) =? dn then q_unbondings_by_denom s dn del else []) (assets s).
+Proof.
+  unfold q_unbondings_by_delegator. rewrite filter_flat_map. apply flat_map_ext. intros ka.
+  destruct (a_denom (snd ka) =? dn) eqn:E.
+  - apply Z.eqb_eq in E. rewrite E. apply filter_all. eapply Forall_impl; [|apply by_denom_answers_denom].
+    intros a Ha. cbv beta in Ha. rewrite Ha. apply Z.eqb_refl.
+  - apply filter_none. eapply Forall_impl; [|apply by_denom_answers_denom]. intros a Ha. cbv beta in Ha. rewrite Ha. exact E.
+Qed.
+
+From Alliance.Proofs Require Import WellKeyed SortedInv.
+Lemma one_asset_per_denom {X} (x : list X) (m : KMap Asset) dn : ksorted m -> kall (fun k a => k = [a_denom a]) m ->
+  flat_map (fun ka => if a_denom (snd ka) =? dn then x else []) m = if kmem m [dn] then x else [].
+Proof.
+  intros Hs Hw. unfold kmem. induction m as [|[k a] m IH]; [reflexivity|].
+  apply ksorted_inv in Hs. destruct Hs as [Hs Hall]. inversion Hw as [|? ? Hk Hw']; subst. cbn [fst snd] in Hk. subst k.
+  cbn [flat_map snd kget]. specialize (IH Hs Hw').
+  destruct (Z.eqb_spec (a_denom a) dn) as [E|Hne].
+  - subst dn. rewrite kcmp_refl. rewrite IH.
+    rewrite (kget_below [a_denom a] m Hall). apply app_nil_r.
+  - rewrite IH. cbn [app].
+    destruct (kcmp [dn] [a_denom a]) eqn:Ec.
+    + apply kcmp_eq in Ec. inversion Ec. congruence.
+    + (* [dn] < [a_denom a] <= every later key: not in the rest *)
+      assert (Hb : Forall (fun y => klt [dn] (fst y)) m).
+      { eapply Forall_impl; [|exact Hall]. intros y Hy. cbn in Hy. eapply klt_trans; [exact Ec | exact Hy]. }
+      rewrite (kget_below [dn] m Hb). reflexivity.
+    + reflexivity.
+Qed.
+
+Theorem unbondings_by_delegator_exact_reachable h del dn : let s := run init_state h in
+  filter (fun a => ans_denom a =? dn) (q_unbondings_by_delegator s del) =
+  if kmem (assets s) [dn] then q_unbondings_by_denom s dn del else [].
+Proof.
+  intros s. rewrite unbondings_by_delegator_exact. apply one_asset_per_denom.
+  - pose proof (reachable_Sorted h) as (H & _). exact H.
+  - exact (run_WK h init_state ltac:(constructor)).
+Qed.
